@@ -80,6 +80,14 @@ def long_token_programs():
             out.append({"src": src, "ver": ver})
         for k, p in enumerate(parts):
             out.append({"src": "<?php\n" + p + "\n", "ver": "7.4" if k % 2 else "5.6"})
+    # tokens of many LINES that begin in column 0 of a later line (bodies of heredocs / nowdocs, HTML blocks, comments, strings)
+    for nl in ("\n", "\r\n"):
+        for n in (9, 12, 40, 130):
+            lines = nl.join("line %d of %d" % (k, n) for k in range(n))
+            parts = ["$a = 1;", "echo <<<'EOT'" + nl + lines + nl + "EOT;" + nl, "$b = 2;", "echo <<<EOT" + nl + lines + " $a" + nl + lines + nl + "EOT;" + nl,
+                     "/*" + nl + lines + nl + "*/", "$c = '" + nl + lines + "';", "?>" + nl + lines + nl + "<?php $d = 3;"]
+            out.append({"src": "<?php" + nl + nl.join(parts) + nl, "ver": "7.4"})
+            out.append({"src": "<?php" + nl + nl.join(parts) + nl, "ver": "5.6"})
     return out
 
 
